@@ -186,7 +186,8 @@ func run(c Case) (v vkit.Verdict) {
 		}
 		dx, dy := math.Abs(gx-c.JS[0]), math.Abs(gy-c.JS[1])
 		if c.Dst.Proj == "longlat" {
-			dx = math.Abs(math.Mod(gx-c.JS[0]+540, 360) - 180)
+			// 0.1 mm on the ground: a longitude difference counts with cos(lat)
+			dx = math.Abs(math.Mod(gx-c.JS[0]+540, 360)-180) * math.Max(math.Cos(gy*math.Pi/180), 1e-3)
 		}
 		if dx > tol || dy > tol {
 			return v.Fail("Go (%.6f, %.6f) vs proj4js (%.6f, %.6f): differ by (%.3g, %.3g) > %.3g for input (%v, %v) [%s -> %s]", gx, gy, c.JS[0], c.JS[1], dx, dy, tol, c.X, c.Y, c.Src, c.Dst)
